@@ -23,7 +23,7 @@ CHECKS = {
    note='Re-exports through import chains or aliases are outside the quantifier and accepted at either location. Links are checked through the real linker objects on the model, not by crawling rendered pages.', ref='DESIGN.md 3/C07'),
  'C01': dict(cat='fault_enumeration', tech='deterministic simulation with fault injection: simulated-disk damage of source files x module schedules, full CLI runs',
    text='Containment part of C01. The real CLI entry point (options, model build, HTML, search index, inventory) runs in a forked child on generated multi-module worlds and on copies of the maintainers test packages after a simulated disk damaged one or two source files (torn, zero-filled tail, bit flips, lost, duplicated block, misdirected write, garbage, NUL bytes, cut inside a UTF-8 sequence), under a seeded processing schedule so that a broken module is reached at top level or on demand from inside another analysis. Oracle: main returns 0, 2 or 3, never raises or hangs; every analysed file that no longer parses is named at the start of a message; the summary, search and inventory files exist; and, when all damage is unparsable, every definition of every undamaged module is documented exactly once and appears on its page. Thorough tier enumerates every truncation offset of small files.',
-   note='The "for all source trees" half of the quantifier is input space and only sampled. I/O errors are not injected (not promised). Three aborts found on valid-but-unusual inputs were repaired in /repo.', ref='DESIGN.md 3/C01'),
+   note='The "for all source trees" half of the quantifier is input space and only sampled. I/O errors are not injected (not promised). Four aborts found on valid-but-unusual inputs or damaged trees were repaired in /repo.', ref='DESIGN.md 3/C01'),
  'C08': dict(cat='fault_enumeration', tech='deterministic simulation with fault injection: exceptions raised at seeded instants inside guarded parser/renderer extents via sys.monitoring, fault-free twin comparison',
    text='Containment part of C08. Full driver.main runs (own process each) on generated projects whose docstrings carry real markup in each docformat (epytext, restructuredtext, google, numpy, plaintext; process-types on/off). A fault-free twin records every guarded extent (parser callee of parse_docstring, to_stan callee of safe_to_stan, the calls inside the try of get_summary) with its number of function entries; each fault run then raises one exception (19 classes incl. RecursionError, MemoryError, ImportError, StopIteration) at a drawn (operation, call, event) inside an extent, in pydoctor, docutils, twisted or stdlib frames alike. Oracle: the run completes with status 0/2/3; when the failure reaches the guard it is reported against the object (parse_errors, message naming its file, status 2/3) and the page shows the complete docstring text; every output file outside the pages that show the target and outside the summary/search/inventory files is byte-identical to the twin; registered objects and reports for other objects are unchanged. A fault-free batch plants fatal epytext and recoverable reST errors and checks report + plain-text fallback. In the fault-free twin itself the text of every docstring must reach the page of its object (rendered or as plain text), and a twin that does not finish within 100 s of wall-clock twice in a row is reported as not terminating.',
    note='The "for all strings" half of the quantifier is input space and not claimed. Only the operations pydoctor guards are injected. One escape (docutils turning a settings failure into sys.exit, reproducible with a malformed ./docutils.conf) was repaired in /repo.', ref='DESIGN.md 3/C08'),
